@@ -316,7 +316,7 @@ Definition is_explicit (c : cfg) (r : req) (o : op) : bool :=
 Definition spec_reissue_ticket (c : cfg) (r : req) : option (list ck) :=
   match identify_pre c r, reissue_time c with
   | ISome ts u tokens _, Some rt =>
-      if cmp_eval reissue_cmp (now r - ts)%Z rt
+      if Z.ltb rt (now r - ts)        (* "older than the reissue time": the property's wording, not the code's operator *)
       then remember c r u (max_age c) (filter nonempty tokens) else None
   | _, _ => None
   end.
